@@ -231,10 +231,14 @@ package crlrepository
 //@   props C12 C20
 //@   requires repoOK(R)
 //@   assigns X.fs
+// start-up cleaning: everything that carries the temp name is removed, nothing that carries a store identifier is
+//@ axiom store_identifiers_are_not_temp_names: forall s string :: {tempName(s)} isHex64(s) ==> !tempName(s)
 //@ func Repository.deleteIfTempFileOrDir
 //@   props C12 C20
 //@   requires repoOK(R) && info != nil
 //@   assigns X.fs
+//@   ensures[C12,C20] temp_artefacts_are_removed: tempName(fileInfoName(payload(info))) ==> called(RemoveAll#1) && arg(RemoveAll#1, 0) == path
+//@   ensures[C12,C20] live_stores_are_kept: called(RemoveAll#any) ==> !isHex64(fileInfoName(payload(info))) && arg(RemoveAll#any, 0) == path
 //@ func Repository.Close
 //@   props C09 C13 C20
 //@   requires repoOK(R) && norwlocks()
